@@ -267,64 +267,7 @@ def check():
     except KeyError as e:
         o.inconc(str(e))
 
-    # (2) $ref emission == component registration
-    try:
-        f_ref = M.one(r"::reference_schema$")
-        f_all = M.one(r"::all_components$")
-        o.functions.extend([mirlib.func_ref(f_ref, "oal-openapi"), mirlib.func_ref(f_all, "oal-openapi")])
-        ex = mirlib.executor([M])
-        outs = [p for p in ex.run(f_ref, arg_names=["self", "name"]) if p.kind == "return"]
-        mirlib.check_translator(o, ex, "reference_schema")
-        n_ref = 0
-        for p in outs:
-            cond = S.pc(p.pc)
-            mi = p.calls("Builder::maybe_inline")
-            if len(mi) != 1 or mi[0][2] != (("sym", "self"), ("sym", "name")):
-                structural("reference_schema: decides with maybe_inline(self, name)", False)
-                continue
-            none = S.disc(S.v(mi[0][3])) == 0
-            isref = p.ret[0] == "aggr" and str(p.ret[1]).endswith("ReferenceOr::Reference")
-            if isref:
-                n_ref += 1
-                L.expect_unsat("reference_schema: a $ref is emitted only when maybe_inline(name) is None", cond + [z3.Not(none)], on_sat)
-                unt = p.calls("Ident::untagged")
-                fmt = [e for e in p.calls() if e[1] == "Arguments::new"]
-                okk = len(unt) == 1 and unt[0][2] == (("sym", "name"),) and len(fmt) == 1 and \
-                    "#/components/schemas/" in str(fmt[0][2][0][2]) and any(t == unt[0][3] for t in ms.subterms(fmt[0][2][1]))
-                structural("reference_schema: target is \"#/components/schemas/\" ++ untagged(name)", okk)
-            else:
-                L.expect_unsat("reference_schema: no $ref (inlined value) only when maybe_inline(name) is Some", cond + [none], on_sat)
-        if n_ref != 1:
-            o.inconc("reference_schema: expected exactly one $ref-emitting path, found %d" % n_ref)
-        ex = mirlib.executor([M])
-        outs = ex.run(f_all, arg_names=["self"])
-        mirlib.check_translator(o, ex, "all_components")
-        n_ins = n_skip = 0
-        for p in outs:
-            if p.kind != "backedge":
-                continue
-            cond = S.pc(p.pc)
-            nx = [e for e in p.calls() if e[1].endswith("Iterator::next")]
-            mi = p.calls("Builder::maybe_inline")
-            ins = inserted(p, E)
-            if len(nx) != 1 or len(mi) != 1:
-                structural("all_components: each entry is tested with maybe_inline once", False)
-                continue
-            name = ms.proj(ms.proj(ms.proj(nx[0][3], ("v", "Some"), E), ("f", 0), E), ("f", 0), E)
-            none = S.disc(S.v(mi[0][3])) == 0
-            structural("all_components: maybe_inline is asked about the entry's own name", same_place(mi[0][2][1], name))
-            if ins:
-                n_ins += 1
-                L.expect_unsat("all_components: an entry is registered only when maybe_inline(name) is None", cond + [z3.Not(none)], on_sat)
-                unt = p.calls("Ident::untagged")
-                structural("all_components: the component key is untagged(name)", len(unt) == 1 and same_place(unt[0][2][0], name) and ins[0][0] == unt[0][3])
-            else:
-                n_skip += 1
-                L.expect_unsat("all_components: an entry is skipped only when maybe_inline(name) is Some", cond + [none], on_sat)
-        if n_ins < 1 or n_skip < 1:
-            o.inconc("all_components loop body: expected an inserting and a skipping path, got %d/%d" % (n_ins, n_skip))
-    except KeyError as e:
-        o.inconc(str(e))
+    ref_closure_lemmas(o, L, S, M, E, structural, on_sat)
 
     # (3) path key and path parameters from the same URI
     try:
@@ -493,6 +436,70 @@ def check():
         elif probs:
             o.oracle_only("validator reports %s although every lemma holds" % probs[:3], rdir)
     return o.finish()
+
+
+def ref_closure_lemmas(o, L, S, M, E, structural, on_sat):
+    """$ref emission == component registration: the same predicate (maybe_inline is None) and the same key decide both
+    (shared with C02: a declared reference that is emitted as a $ref but not registered is a schema the document lost)."""
+    # (2) $ref emission == component registration
+    try:
+        f_ref = M.one(r"::reference_schema$")
+        f_all = M.one(r"::all_components$")
+        o.functions.extend([mirlib.func_ref(f_ref, "oal-openapi"), mirlib.func_ref(f_all, "oal-openapi")])
+        ex = mirlib.executor([M])
+        outs = [p for p in ex.run(f_ref, arg_names=["self", "name"]) if p.kind == "return"]
+        mirlib.check_translator(o, ex, "reference_schema")
+        n_ref = 0
+        for p in outs:
+            cond = S.pc(p.pc)
+            mi = p.calls("Builder::maybe_inline")
+            if len(mi) != 1 or mi[0][2] != (("sym", "self"), ("sym", "name")):
+                structural("reference_schema: decides with maybe_inline(self, name)", False)
+                continue
+            none = S.disc(S.v(mi[0][3])) == 0
+            isref = p.ret[0] == "aggr" and str(p.ret[1]).endswith("ReferenceOr::Reference")
+            if isref:
+                n_ref += 1
+                L.expect_unsat("reference_schema: a $ref is emitted only when maybe_inline(name) is None", cond + [z3.Not(none)], on_sat)
+                unt = p.calls("Ident::untagged")
+                fmt = [e for e in p.calls() if e[1] == "Arguments::new"]
+                okk = len(unt) == 1 and unt[0][2] == (("sym", "name"),) and len(fmt) == 1 and \
+                    "#/components/schemas/" in str(fmt[0][2][0][2]) and any(t == unt[0][3] for t in ms.subterms(fmt[0][2][1]))
+                structural("reference_schema: target is \"#/components/schemas/\" ++ untagged(name)", okk)
+            else:
+                L.expect_unsat("reference_schema: no $ref (inlined value) only when maybe_inline(name) is Some", cond + [none], on_sat)
+        if n_ref != 1:
+            o.inconc("reference_schema: expected exactly one $ref-emitting path, found %d" % n_ref)
+        ex = mirlib.executor([M])
+        outs = ex.run(f_all, arg_names=["self"])
+        mirlib.check_translator(o, ex, "all_components")
+        n_ins = n_skip = 0
+        for p in outs:
+            if p.kind != "backedge":
+                continue
+            cond = S.pc(p.pc)
+            nx = [e for e in p.calls() if e[1].endswith("Iterator::next")]
+            mi = p.calls("Builder::maybe_inline")
+            ins = inserted(p, E)
+            if len(nx) != 1 or len(mi) != 1:
+                structural("all_components: each entry is tested with maybe_inline once", False)
+                continue
+            name = ms.proj(ms.proj(ms.proj(nx[0][3], ("v", "Some"), E), ("f", 0), E), ("f", 0), E)
+            none = S.disc(S.v(mi[0][3])) == 0
+            structural("all_components: maybe_inline is asked about the entry's own name", same_place(mi[0][2][1], name))
+            if ins:
+                n_ins += 1
+                L.expect_unsat("all_components: an entry is registered only when maybe_inline(name) is None", cond + [z3.Not(none)], on_sat)
+                unt = p.calls("Ident::untagged")
+                structural("all_components: the component key is untagged(name)", len(unt) == 1 and same_place(unt[0][2][0], name) and ins[0][0] == unt[0][3])
+            else:
+                n_skip += 1
+                L.expect_unsat("all_components: an entry is skipped only when maybe_inline(name) is Some", cond + [none], on_sat)
+        if n_ins < 1 or n_skip < 1:
+            o.inconc("all_components loop body: expected an inserting and a skipping path, got %d/%d" % (n_ins, n_skip))
+    except KeyError as e:
+        o.inconc(str(e))
+
 
 
 def operation_id_lemma(o, L, M, bad, F):
